@@ -23,7 +23,9 @@ RULE = ("(a) Hypothesis histories of accepted accesses (all widths, counted and 
         "reference cache (two admissible readings of whether an uncounted read allocates are tracked, a run must be "
         "consistent with one); (c) aligned-access programs: counters identical in single-cycle and five-stage mode, accesses "
         "= loads+stores executed by the ISA reference, hits = reference cache fed that trace. non-trivial = history with >=1 "
-        "hit, >=1 miss in a full set and >=1 write miss; programs with >=1 hit and >=1 miss; distinct = hash(case)")
+        "hit, >=1 miss in a full set and >=1 write miss; programs with >=1 hit and >=1 miss; distinct = hash(case)"
+        ' Histories contain reset() (optionally after an uncounted-only prefix); deterministic long histories (2600 ope'
+        'rations) and a 1100-iteration loop take the counters beyond 1000, which must stay plain decimal numbers.')
 ASSUMPTIONS = [
     "whether an uncounted read allocates on a miss is not stated by the property: both readings admissible, consistency required",
     "accesses rejected for crossing a word boundary or leaving the address range are outside the accounting claim",
